@@ -185,7 +185,7 @@ def run(ctx):
     for c in cases:
         slab.append(c)
         w += len(c["in"]["cells"]) + 3
-        if w >= 25000:
+        if w >= 80000:
             judge(ctx, slab)
             slab, w = [], 0
     if slab:
